@@ -115,6 +115,12 @@ CLAIMED = {
         text="A stand-in nano_cop first on PATH relays every message between nano_vm --isolate-ffi and the real nano_cop and injects one fault: 11 protocol steps (before/after READY; on request, before reply, mid-reply for calls 1-3) x 23 kinds (exit 0/1, SIGKILL, closing either or both pipes, 1-7 byte headers, wrong version/type, length beyond COP_MAX_PAYLOAD, short and overlong payloads, undecodable values, empty and 1 MiB error texts) - 253 plans, all executed, all fire. The VM must end with status 0 or 1 (never a signal), report an error when it fails, keep every line printed before the faulted call, print nothing wrong, and leave neither the stand-in nor the real co-process alive.",
         note="The stand-in is a Python relay: timing differs from a real crash. Only the workload's five calls are exercised (requests 1-3 faulted).",
         design="3/C16"),
+    "C17": dict(
+        category="exploration",
+        technique="differential oracle per client (nano_vm --daemon vs standalone nano_vm) on Hypothesis-generated batches of concurrent clients with drawn arrival offsets, against a private daemon (hook H3) in the plain and the ThreadSanitizer build",
+        text="Batches of up to 24 (quick) / 64 (thorough) real client processes over 1-5 distinct modules - outputs from 0 bytes to several hundred KiB with a per-module marker on every line, globals, heap-heavy loops, failed asserts, out-of-range accesses, non-zero exit statuses, external calls routed through co-processes - are submitted with 0-20 ms arrival offsets. Each client's stdout bytes, exit status and error text must equal the standalone run of its module, no foreign marker may appear, the daemon must survive, and every fourth batch runs against a TSan-instrumented daemon whose log must be free of data-race reports.",
+        note="The schedule space is sampled, not enumerated: only arrival offsets are controlled (yield-injection hook H4 was not built). A failure must reproduce in 2 of 3 re-runs.",
+        design="3/C17"),
 }
 
 NOT_YET = {
